@@ -56,6 +56,7 @@ class SimLoop(base_events.BaseEventLoop):
         self.exceptions: list[dict] = []
         self.net = None  # set by SimNet
         self.tie = None  # callable(n_choices) -> int, set by the world
+        self.iter_cost = 0.0  # virtual seconds per loop pass while the ready queue is not empty (0: instants are atomic)
         self.on_instant_end = None  # callable(t)
         self.on_timer_fired = None  # callable(handle)
         self._task_refs: list = []
@@ -183,6 +184,10 @@ class SimLoop(base_events.BaseEventLoop):
                 raise SimStepCap(f"more than {self.max_steps} handle executions")
             handle._run()
         handle = None
+        if self.iter_cost and self._ready:
+            # optional model of "a loop pass takes time": while work is pending inside an instant the clock creeps on, so a
+            # timer that falls due a few passes after an event can fire in the middle of what that event started
+            self._vtime += self.iter_cost
 
     # -- selector stubs ------------------------------------------------------
     def _process_events(self, event_list) -> None:  # pragma: no cover
